@@ -16,6 +16,7 @@ public:
     int ident() const;
     const std::string &label() const;
     Item *twin();
+    int combine(const Item &other) const;
 private:
     void born();
     unsigned m_magic;
@@ -41,6 +42,8 @@ Item *defaultItem();
 Item copyItem(int v);
 int useItem(const Item *o);
 int sumItems(const Item &a, const Item &b);
+int passItem(Item arg);
+int vecDot(const std::vector<int> &a, const std::vector<int> &b);
 Box *makeBox(int v);
 
 const std::string &strRef();
